@@ -372,7 +372,8 @@ def r25_8(ctx, rep):
         raise MechanismMissing(R, "no loop over the start/value attributes found in exitSymbol")
 
 
-MUTABLE_CTORS = ("dict", "list", "set", "OrderedDict", "defaultdict", "deque", "Counter", "WeakValueDictionary", "WeakKeyDictionary", "WeakSet", "lru_cache", "cache")
+MUTABLE_CTORS = ("dict", "list", "set", "OrderedDict", "defaultdict", "deque", "Counter", "WeakValueDictionary", "WeakKeyDictionary", "WeakSet", "lru_cache", "cache",
+                 "count", "cycle", "iter")  # a running counter / iterator is state as well: next() advances it for every later caller
 
 
 def _module_containers(mod):
@@ -389,7 +390,7 @@ def _module_containers(mod):
     return out
 
 
-def module_state_free(ctx, rep, R, rel, what):
+def module_state_free(ctx, rep, R, rel, what, allow_function_attrs=("parse.initialized_dbs",)):
     """no function or method of module `rel` writes to a module-level mutable container, and none is wrapped in a caching
     decorator; reading a module-level list/dict that is never written (a constant table) is fine"""
     mod = ctx.module(rel, R)
@@ -400,6 +401,18 @@ def module_state_free(ctx, rep, R, rel, what):
         if isinstance(c, ast.ClassDef):
             cls_state |= _module_containers(c)
     written, deco = {}, []
+    # attributes hung on a module-level function object (`f.last_result = ...`): per-process state just like a module global. The one the
+    # parser keeps on purpose (the set of databases checked in this process) is decided by R01.12 / R02.8 and allowed here.
+    module_funcs = {st.name for st in mod.body if isinstance(st, (ast.FunctionDef, ast.AsyncFunctionDef))}
+    for n in ast.walk(mod):
+        if isinstance(n, (ast.Assign, ast.AugAssign)):
+            for t in (n.targets if isinstance(n, ast.Assign) else [n.target]):
+                if isinstance(t, ast.Attribute) and isinstance(t.value, ast.Name) and t.value.id in module_funcs and "%s.%s" % (t.value.id, t.attr) not in allow_function_attrs:
+                    host = n
+                    while getattr(host, "_parent", None) is not None and not isinstance(host, (ast.FunctionDef, ast.AsyncFunctionDef)):
+                        host = host._parent
+                    if isinstance(host, (ast.FunctionDef, ast.AsyncFunctionDef)):
+                        written.setdefault("%s.%s" % (t.value.id, t.attr), set()).add(host.name)
     for fn in ast.walk(mod):
         if not isinstance(fn, (ast.FunctionDef, ast.AsyncFunctionDef)):
             continue
@@ -418,6 +431,13 @@ def module_state_free(ctx, rep, R, rel, what):
             elif isinstance(n, ast.Global):
                 for nm in n.names:
                     written.setdefault(nm, set()).add(fn.name)
+            elif isinstance(n, ast.Call) and isinstance(n.func, ast.Name) and n.func.id == "next" and n.args:
+                # next(<module-level or class-level counter>)
+                a0 = n.args[0]
+                if isinstance(a0, ast.Name) and a0.id in state:
+                    written.setdefault(a0.id, set()).add(fn.name)
+                if isinstance(a0, ast.Attribute) and a0.attr in cls_state:
+                    written.setdefault("<class>." + a0.attr, set()).add(fn.name)
             if tgt in state:
                 written.setdefault(tgt, set()).add(fn.name)
             # the same through an attribute of the class / instance
@@ -528,6 +548,15 @@ def r25_10(ctx, rep):
                        "the element's name is `%s`: the document names something the flat model does not contain" % norm(v)[:70])
     if n < 5:
         raise MechanismMissing(R, "fewer than 5 `name=` attributes found in XmlGenerator")
+
+
+@SPEC.rule(
+    "R25.11",
+    "every document is rendered from the tree it is given: no function of the XML generator module is wrapped in a caching decorator or "
+    "writes a module-level container — functools.lru_cache keys True and 1.0 alike, and the literal rendered first is served for the other",
+)
+def r25_11(ctx, rep):
+    module_state_free(ctx, rep, "R25.11", XML, "the XML generator module")
 
 
 # -- seeded variants ---------------------------------------------------------
